@@ -2,7 +2,7 @@
 // C12 (structural and Sybil-limit invariants, stale-head replacement), C14 kernel (a node heard
 // from again is refreshed), C11 (closest() = first 20 of the table in secure-first/XOR order).
 use super::*;
-use crate::common::node::verif_kani::{last_seen_age_ms, node_aged, stub_is_valid_for_ip};
+use crate::common::node::verif_kani::{node_aged, seen_just_now, stub_is_valid_for_ip};
 use crate::common::NodeInner;
 use std::net::SocketAddrV4;
 use std::sync::Arc;
@@ -183,21 +183,15 @@ fn stub_already_exists(_this: &Node, nodes: &[Node]) -> bool {
     }
 }
 
-#[kani::proof]
-#[kani::unwind(23)]
-#[kani::stub(std::time::Instant::now, clock::mock_now)]
-#[kani::stub(std::time::Instant::elapsed, clock::mock_elapsed)]
-#[kani::stub(KBucket::add, stub_bucket_add)]
-#[kani::stub(Node::already_exists, stub_already_exists)]
-fn c12_table_add_guards_then_delegates_to_the_bucket_at_its_distance() {
+/// One RoutingTable::add of a node with a CONCRETE id (b0, b1) on the table {A in bucket 160, B in
+/// bucket 159}; which existing entry "clashes" (per the contract stub of already_exists) and the
+/// bucket's verdict are symbolic. (A symbolic id makes the bucket key symbolic and the stand-in's
+/// ordered insertion a case split over moved buckets: 10 GB.)
+fn table_add_case(b0: u8, b1: u8) -> (bool, bool, u16) {
     let mut t = RoutingTable::new(idb(0, 0, 0));
     // A (port 7001) in bucket 160, B (port 7002) in bucket 159
     place(&mut t, node_aged(idb(0x80, 1, 0), addr(2, 7001), 1_000));
     place(&mut t, node_aged(idb(0x40, 1, 0), addr(5, 7002), 1_000));
-    let b0: u8 = kani::any();
-    let b1: u8 = kani::any();
-    kani::assume(b0 == 0 || b0 == 0x80 || b0 == 0x40 || b0 == 0x20);
-    kani::assume(b1 < 2);
     let clash_port: u16 = kani::any();
     kani::assume(clash_port == 0 || clash_port == 7001 || clash_port == 7002);
     let verdict: bool = kani::any();
@@ -224,17 +218,61 @@ fn c12_table_add_guards_then_delegates_to_the_bucket_at_its_distance() {
     } else {
         assert!(calls == 1 && r == verdict, "C12: otherwise the decision is the bucket's");
         assert!(unsafe { BADD_NODE } == ptr, "the node handed to the bucket is the incoming one");
-        let bucket_addr = match d {
-            160 => t.buckets.get(&160).map(|b| b as *const KBucket as usize),
-            159 => t.buckets.get(&159).map(|b| b as *const KBucket as usize),
-            _ => t.buckets.get(&d).map(|b| b as *const KBucket as usize),
-        };
+        let bucket_addr = t.buckets.get(&d).map(|b| b as *const KBucket as usize);
         assert!(bucket_addr == Some(unsafe { BADD_BUCKET }), "C12: every entry goes to the bucket matching its distance to the table's id");
     }
+    core::mem::forget(t);
+    (own, clash, clash_port)
+}
+
+macro_rules! table_add_harness {
+    ($name:ident, $b0:expr, $b1:expr, |$own:ident, $clash:ident, $port:ident| $covers:block) => {
+        #[kani::proof]
+        #[kani::unwind(23)]
+        #[kani::stub(std::time::Instant::now, clock::mock_now)]
+        #[kani::stub(std::time::Instant::elapsed, clock::mock_elapsed)]
+        #[kani::stub(KBucket::add, stub_bucket_add)]
+        #[kani::stub(Node::already_exists, stub_already_exists)]
+        fn $name() {
+            let ($own, $clash, $port) = table_add_case($b0, $b1);
+            $covers
+        }
+    };
+}
+table_add_harness!(c12_table_add_refuses_its_own_id, 0, 0, |own, _clash, _port| {
     kani::cover!(own);
-    kani::cover!(clash && clash_port == 7002);
-    kani::cover!(!own && !clash && is_a && clash_port == 7001, "a known node is not blocked by its own entry and reaches its bucket's refresh rule");
-    kani::cover!(!own && !clash && d == 158, "a stranger opens a new bucket");
+});
+table_add_harness!(c12_table_add_of_a_known_node_reaches_its_bucket, 0x80, 1, |_own, clash, port| {
+    kani::cover!(!clash && port == 7001, "a known node is not blocked by its own entry and reaches its bucket's refresh rule");
+    kani::cover!(clash && port == 7002, "but is blocked by a clash with another entry");
+});
+table_add_harness!(c12_table_add_of_a_stranger_into_an_existing_bucket, 0x80, 0, |_own, clash, port| {
+    kani::cover!(clash && port == 7001);
+    kani::cover!(!clash);
+});
+table_add_harness!(c12_table_add_of_a_stranger_opens_the_bucket_at_its_distance, 0x20, 1, |_own, clash, _port| {
+    kani::cover!(!clash, "a stranger at a new distance opens that bucket");
+});
+
+/// RoutingTable::remove(id) on a bucket {A, C}: the entry with that id goes, the other stays; an
+/// unknown id changes nothing. (The id is concrete per harness: `Vec::retain` over heap nodes is
+/// unrolled to the unwinding bound whatever the real length, and a symbolic id on top of that did
+/// not finish symbolic execution in 900 s.)
+fn table_remove_case(id: Id, member: bool) {
+    let mut t = RoutingTable::new(idb(0, 0, 0));
+    place(&mut t, node_aged(idb(0x80, 1, 0), addr(2, 7001), 1_000)); // A, bucket 160
+    place(&mut t, node_aged(idb(0x80, 0, 1), addr(9, 7003), 1_000)); // C, bucket 160
+    t.remove(&id);
+    let (len, first) = match t.buckets.get(&160) {
+        Some(b) => (b.nodes.len(), if b.nodes.len() > 0 { b.nodes[0].address().port() } else { 0 }),
+        None => (0, 0),
+    };
+    if member {
+        assert!(len == 1 && first == 7003, "C12: remove removes the id and nothing else");
+    } else {
+        assert!(len == 2 && first == 7001, "C12: removing an unknown id changes nothing");
+    }
+    assert!(t.size() == len, "size agrees");
     core::mem::forget(t);
 }
 
@@ -243,34 +281,15 @@ fn c12_table_add_guards_then_delegates_to_the_bucket_at_its_distance() {
 #[kani::stub(std::time::Instant::now, clock::mock_now)]
 #[kani::stub(std::time::Instant::elapsed, clock::mock_elapsed)]
 fn c12_table_remove_removes_exactly_that_id() {
-    let mut t = RoutingTable::new(idb(0, 0, 0));
-    place(&mut t, node_aged(idb(0x80, 1, 0), addr(2, 7001), 1_000)); // A, bucket 160
-    place(&mut t, node_aged(idb(0x80, 0, 1), addr(9, 7003), 1_000)); // C, bucket 160
-    place(&mut t, node_aged(idb(0x40, 1, 0), addr(5, 7002), 1_000)); // B, bucket 159
-    let which: u8 = kani::any();
-    kani::assume(which < 4);
-    let id = match which {
-        0 => idb(0x80, 1, 0),
-        1 => idb(0x40, 1, 0),
-        2 => idb(0x80, 0, 1),
-        _ => idb(0x80, 1, 1), // a stranger that would live in bucket 160
-    };
-    t.remove(&id);
-    let ports160 = match t.buckets.get(&160) {
-        Some(b) => (b.nodes.len(), if b.nodes.len() > 0 { b.nodes[0].address().port() } else { 0 }, if b.nodes.len() > 1 { b.nodes[1].address().port() } else { 0 }),
-        None => (0, 0, 0),
-    };
-    let len159 = match t.buckets.get(&159) { Some(b) => b.nodes.len(), None => 0 };
-    match which {
-        0 => assert!(ports160 == (1, 7003, 0) && len159 == 1, "C12: remove removes the id and nothing else"),
-        1 => assert!(ports160 == (2, 7001, 7003) && len159 == 0),
-        2 => assert!(ports160 == (1, 7001, 0) && len159 == 1),
-        _ => assert!(ports160 == (2, 7001, 7003) && len159 == 1, "removing an unknown id changes nothing"),
-    }
-    assert!(t.size() == if which == 3 { 3 } else { 2 }, "size agrees");
-    kani::cover!(which == 0);
-    kani::cover!(which == 3);
-    core::mem::forget(t);
+    table_remove_case(idb(0x80, 1, 0), true)
+}
+
+#[kani::proof]
+#[kani::unwind(23)]
+#[kani::stub(std::time::Instant::now, clock::mock_now)]
+#[kani::stub(std::time::Instant::elapsed, clock::mock_elapsed)]
+fn c12_table_remove_of_an_unknown_id_changes_nothing() {
+    table_remove_case(idb(0x80, 1, 1), false)
 }
 
 static mut TADD_CALLS: u32 = 0;
@@ -369,7 +388,7 @@ fn c14_readding_a_known_node_refreshes_last_seen() {
     match t.buckets.get(&160) {
         Some(b) => {
             assert!(b.nodes.len() == 1);
-            assert!(last_seen_age_ms(&b.nodes[0]) == 0, "C14: its last_seen is refreshed, so it is not stale for another 15 minutes");
+            assert!(seen_just_now(&b.nodes[0]), "C14: its last_seen is refreshed, so it is not stale for another 15 minutes");
             assert!(b.nodes[0].address().port() == want_port, "and its port is updated");
         }
         None => assert!(false),
@@ -414,4 +433,24 @@ fn c20_increment_then_decrement_restores_the_statistics() {
     assert!(stats(&t) == (c0 + 1, a as f64 + d as f64, r0, b as f64, sn0));
     t.decrement_dht_size_estimate(d as f64);
     assert!(stats(&t) == (c0, a as f64, r0, b as f64, sn0), "C20: decrement_dht_size_estimate undoes increment_dht_size_estimate");
+}
+
+/// size() and is_empty() agree (quick-tier part of c12_size_iteration_and_is_empty_agree: the
+/// 160-step bucket scan of the iterator needs > 10 GB and runs in the thorough tier)
+#[kani::proof]
+#[kani::unwind(23)]
+#[kani::stub(std::time::Instant::now, clock::mock_now)]
+#[kani::stub(std::time::Instant::elapsed, clock::mock_elapsed)]
+fn c12_size_and_is_empty_agree() {
+    let mut t = RoutingTable::new(idb(0, 0, 0));
+    assert!(t.size() == 0 && t.is_empty());
+    t.buckets.entry(7).or_default(); // an empty bucket, as removals leave behind
+    assert!(t.size() == 0 && t.is_empty(), "C12: a table whose buckets are all empty is empty");
+    place(&mut t, node_aged(idb(0x80, 1, 0), addr(2, 1), 1_000));
+    let second: bool = kani::any();
+    if second {
+        place(&mut t, node_aged(idb(0x01, 1, 0), addr(4, 1), 1_000));
+    }
+    assert!(t.size() == if second { 2 } else { 1 } && !t.is_empty(), "C12: size counts every entry; is_empty <=> size == 0");
+    core::mem::forget(t);
 }
